@@ -41,11 +41,13 @@ func main() {
 		fmt.Printf("replayed=%d events=%d\n", k, w.N)
 	case "morass/random":
 		w := vt.Create(*out)
+		vt.StallGuard(w, 60*time.Second)
 		morassd.Random(w, vt.Rand(*seed, "morass"), *n, *big, *conc)
 		w.Close()
 		fmt.Printf("cases=%d events=%d\n", *n, w.N)
 	case "morass/conctrace":
 		w := vt.Create(*out)
+		vt.StallGuard(w, 30*time.Second)
 		morassd.ConcTraces(w, vt.Rand(*seed, "morassconc"), *n)
 		w.Close()
 		fmt.Printf("runs=%d events=%d\n", *n, w.N)
